@@ -450,7 +450,7 @@ class Node(object):
         else:
             for server in self.servers:
                 self.all_servers_total.append(server.total_time)
-                self.all_servers_busy.append(server.busy_time)
+                self.all_servers_busy.append(self.increment_time(server.busy_time, 0))
             self.server_utilisation = sum(self.all_servers_busy) / sum(self.all_servers_total)
 
     def finish_service(self):
@@ -522,7 +522,7 @@ class Node(object):
         """
         srvr.total_time = self.increment_time(self.next_event_date, -srvr.start_date)
         self.overtime.append(self.increment_time(self.next_event_date, -srvr.shift_end))
-        self.all_servers_busy.append(srvr.busy_time)
+        self.all_servers_busy.append(self.increment_time(srvr.busy_time, 0))
         self.all_servers_total.append(srvr.total_time)
         indx = self.servers.index(srvr)
         del self.servers[indx]
@@ -842,7 +842,7 @@ class Node(object):
             for srvr in self.servers:
                 srvr.total_time = self.increment_time(current_time, -srvr.start_date)
                 if srvr.busy:
-                    srvr.busy_time += self.increment_time(current_time, -srvr.cust.service_start_date)
+                    srvr.busy_time = self.increment_time(srvr.busy_time, self.increment_time(current_time, -srvr.cust.service_start_date))
 
     def write_individual_record(self, individual):
         """
